@@ -100,6 +100,11 @@ class C12(P.Property):
                                      dict(lo=0.01, hi=0.3, tail=0.1, seg=2),
                                      dict(lo=0.0, hi=0.0), dict(lo=0.0, hi=0.0, quantum=0.001), dict(lo=0.0005, hi=0.004, quantum=0.002)]),  # no latency / busy loop -- events tie, only the loop's FIFO order decides
                      skew=rng.choice([1.0, 1.0, 0.5, 2.0]), bufsize=rng.choice([8192, 8192, 16]), gc_every=rng.choice([0, 0, 0, 1, 2]))
+        if rng.random() < 0.3:
+            knobs["mtime_gran"] = rng.choice([1, 2])  # a file system with coarse time stamps: writes within one tick carry the same stamp
+        if rng.random() < 0.15 and steps:
+            # the wall clock is stepped before that step (NTP correction, VM resume): time.time() and new file stamps jump, loop time does not
+            knobs["clock_steps"] = {str(rng.randrange(len(steps))): rng.choice([-3600.0, -5.0, -0.5, -3 * 86400.0, 3600.0, 9 * 86400.0])}
         if rng.random() < 0.2:
             # the URL path is the client's choice (the server URI is a client setting); it names no other service
             knobs["paths"] = {n: rng.choice(["", "/", "/staging", "/v2/sse"]) for n in "ABC"}
@@ -399,10 +404,45 @@ class C12(P.Property):
         nopen = sum(1 for a in abstract if a[0] == "s_open")
         res.cover = {f"init{knobs['init_state']}:conns{min(nopen, 4)}:overlap{min(overlapped, 2)}": 1}
 
+    def enumerate(self, tier):
+        """overlap sweep: A works through the protocol from every initial state while B (and optionally C) open at every position, wait, and
+        then act; each history under a plain, a coarse-time-stamp and a stepped-clock environment"""
+        plans = []
+        envs = [{}, {"mtime_gran": 2}, {"clock": -5.0}, {"mtime_gran": 1, "clock": 3600.0}]
+        for init in (0, 1, 2):
+            a_work = {0: ["config", "upload"], 1: ["upload"], 2: ["search"]}[init]
+            a_steps = ["open"] + a_work + ["close"]
+            for pos_b in range(1, len(a_steps)):
+                for xb in ("config", "upload", "search", None):
+                    thirds = [None] + [(pc, yc) for pc in range(pos_b, len(a_steps)) for yc in ("upload", "search")]
+                    for third in thirds:
+                        for env in envs:
+                            for gap in ((0.01,) if third else (0.01, 0.3)):
+                                steps = []
+                                for i, d in enumerate(a_steps):
+                                    if i == pos_b:
+                                        steps.append({"actor": "B", "do": "open", "gap": gap})
+                                    if third and i == third[0]:
+                                        steps.append({"actor": "C", "do": "open", "gap": gap})
+                                    steps.append({"actor": "A", "do": d, "gap": gap})
+                                if xb:
+                                    steps.append({"actor": "B", "do": xb, "gap": gap})
+                                steps.append({"actor": "B", "do": "close", "gap": gap})
+                                if third:
+                                    steps.append({"actor": "C", "do": third[1], "gap": gap})
+                                    steps.append({"actor": "C", "do": "close", "gap": gap})
+                                knobs = dict(scheme="CJJ14.PiBas", init_state=init, net=dict(lo=0.001, hi=0.02), skew=1.0, bufsize=8192, gc_every=0)
+                                if env.get("mtime_gran"):
+                                    knobs["mtime_gran"] = env["mtime_gran"]
+                                if env.get("clock"):
+                                    knobs["clock_steps"] = {str(pos_b): env["clock"]}
+                                plans.append({"property": "C12", "seed": 5000 + len(plans), "knobs": knobs, "steps": steps, "enumerated": True})
+        return plans
+
     # ------------------------------------------------------------------ minimisation
     def simplifications(self, plan):
         k = plan["knobs"]
-        for key, val in (("skew", 1.0), ("bufsize", 8192), ("scheme", "CJJ14.PiBas"), ("net", dict(lo=0.01, hi=0.01)), ("gc_every", 0), ("big", False), ("read_fault", None), ("paths", None)):
+        for key, val in (("skew", 1.0), ("bufsize", 8192), ("scheme", "CJJ14.PiBas"), ("net", dict(lo=0.01, hi=0.01)), ("gc_every", 0), ("big", False), ("read_fault", None), ("paths", None), ("mtime_gran", None), ("clock_steps", None)):
             if k.get(key) != val:
                 yield dict(plan, knobs=dict(k, **{key: val}))
         if k["init_state"] > 0:
